@@ -37,6 +37,8 @@ def run(ctx: Ctx) -> None:
         hooks.rule_qindex(ctx, rel, cname, hooks.HOOKS)
         hooks.rule_determinism(ctx, rel, cname, ["compile_one_gate"])
     hooks.rule_condition(ctx)
+    hooks.rule_determinism_passthrough(ctx)
+    hooks.rule_cache_keys(ctx, [(STAB, "StabilizerCompiler"), (DM, "DensityMatrixCompiler"), (BASE, "CompilerBase")])
     rule_index_map(ctx)
     rule_order_compile(ctx)
     rule_determinism_map(ctx)
@@ -389,7 +391,12 @@ def rule_gate_table(ctx: Ctx) -> None:
             else:
                 ctx.ok("sibling.gate-table", sm, c, what=f"{cn}.{meth} forwards {p} in order")
         try:
-            stab_methods[meth] = gatesum.summarise(repo, t1)
+            sm_ = gatesum.summarise_or_none(repo, t1)
+            if sm_ is None:
+                ctx.fail("sibling.gate-table", sm, c1, f"Stabilizer.{meth} applies transform.{t1}, whose sign update is not a Pauli conjugation",
+                         func=f"Stabilizer.{meth}", construct=f"Stabilizer.{meth} -> {t1} (bad sign update)")
+                continue
+            stab_methods[meth] = sm_
         except gatesum.Unsummarisable as e:
             raise AnalysisError(f"transformation.{t1}: {e}")
     # conditioned gates of MixedStabilizer: gate == "x" -> transform.x_gate ...
@@ -431,8 +438,13 @@ def rule_gate_table(ctx: Ctx) -> None:
                 tname = cond.get(g.value) if isinstance(g, ast.Constant) else None
                 if tname is None:
                     raise AnalysisError(f"{STAB}: conditioned gate tag not resolvable: {short(gc)}")
-                k, u = gatesum.summarise(repo, tname)
+                ku = gatesum.summarise_or_none(repo, tname)
+                if ku is None:
+                    continue
+                k, u = ku
             else:
+                if a not in stab_methods:
+                    continue
                 k, u = stab_methods[a]
             exp = want if kind in ("1", "cc") else cl.controlled(want)
             if len(u) == len(exp) and cl.key(u) == cl.key(exp):
@@ -481,7 +493,19 @@ def rule_gate_table(ctx: Ctx) -> None:
         b = hooks.reach(repo, chain, c)
         if b is None or b.raises:
             continue
-        for x in [x for st in b.body for x in calls_in(st) if call_attr(x) == "get_one_qubit_gate"]:
+        corr = [x for st in b.body for x in calls_in(st) if call_attr(x) == "get_one_qubit_gate"]
+        if not corr:
+            # one level of helper: self.<method>(...) called in the branch
+            dci = repo.cls("DensityMatrixCompiler", DM)
+            for st in b.body:
+                for hc in calls_in(st):
+                    f = hc.func
+                    if isinstance(f, ast.Attribute) and isinstance(f.value, ast.Name) and f.value.id == "self" and f.attr in dci.methods():
+                        corr += [x for x in calls_in(dci.methods()[f.attr]) if call_attr(x) == "get_one_qubit_gate"]
+        if not corr:
+            raise AnalysisError(f"{DM}: the conditioned correction gate of the branch reached by {c.name} is not built in the branch "
+                                f"(moved into a helper?): the gate-table rule cannot identify it")
+        for x in corr:
             g = x.args[2] if len(x.args) > 2 else get_kw(x, "target_gate")
             if isinstance(g, ast.Call) and not g.args and (call_name(g) or "").startswith("dm."):
                 mat = gatesum.dm_matrix_of(repo, g, dmm)
@@ -522,6 +546,22 @@ KNOCKOUTS = [
                       "            np.kron(np.eye(2**target_qubit), np.eye(2) - sigmaz()),\n            np.eye(2 ** (control_qubit - target_qubit - 1)),"),
              "kron.layout", "control_qubit > target_qubit"),
     Knockout("projectors-order", "graphiq/backends/density_matrix/functions.py", sub_once("    return [projector0, projector1]", "    return [projector1, projector0]"), "kron.layout", "projectors_zbasis"),
+    Knockout("cache-key-incomplete", DM, sub_once("""            unitary = dm.get_one_qubit_gate(
+                n_quantum,
+                q_index(op.register, op.reg_type),
+                self.ops[op.__class__](*params),
+            )
+            state.apply_unitary(unitary)""", """            key = (n_quantum, op.register, op.reg_type)
+            if key not in self._memo:
+                self._memo[key] = dm.get_one_qubit_gate(
+                    n_quantum,
+                    q_index(op.register, op.reg_type),
+                    self.ops[op.__class__](*params),
+                )
+            state.apply_unitary(self._memo[key])"""),
+             "cache.key-complete", "cache key misses"),
+    Knockout("determinism-falsy-zero", gatesum.SSTATE, sub_once("            self._tableau, qubit_position, measurement_determinism\n        )\n        return outcome\n\n    def apply_x_measurement", "            self._tableau, qubit_position, measurement_determinism or \"probabilistic\"\n        )\n        return outcome\n\n    def apply_x_measurement"),
+             "sibling.determinism", "measurement_determinism or"),
     Knockout("reset-to-one", gatesum.SSTATE, sub_nth("qubit_position, 0, measurement_determinism", "qubit_position, 1, measurement_determinism", 0), "reset.zero", "reset_qubit"),
     Knockout("reset-kraus", "graphiq/backends/density_matrix/functions.py", sub_once("    kraus1 = np.array([[0, 1], [0, 0]])", "    kraus1 = np.array([[0, 0], [0, 1]])"), "reset.zero", "Kraus"),
     Knockout("A2-delete-CZ-branch", STAB,
